@@ -30,7 +30,8 @@ FLOORS = {'extractions': 300, 'focus_evaluations': 1000, 'depth2_focus': 50,
           'with_changes': 100, 'changes_by_name': 5,
           'derived_originals': 100, 'frozen_formula_models': 50,
           'wide_range_evaluations': 40, 'changes_before_extraction': 100,
-          'extractions_before_build_code': 30}
+          'extractions_before_build_code': 30,
+          'chained_extraction_evaluations': 40}
 ANCHOR_FUNCS = {'xlcalculator/model.py': ['ModelCompiler.extract']}
 TIMEOUT = {'quick': 600, 'thorough': 3000}
 
@@ -109,9 +110,77 @@ def run_wide(ctx):
                 break
 
 
+def run_chained(ctx):
+    """an extract of an extract, with the named inputs re-assigned (by address
+    and by name) between the two extractions"""
+    from xlcalculator import Evaluator, ModelCompiler
+    rng = ctx.rng
+    out = os.path.join(bootstrap.VERIF, 'out', 'c13')
+    os.makedirs(out, exist_ok=True)
+    for trial in range(4):
+        rate, base = rng.choice([0.1, 0.5, 2]), rng.choice([200, 40, 7])
+        cells = {('Sheet1', 1, 1): rate, ('Sheet1', 1, 2): base,
+                 ('Sheet1', 1, 3): 5,
+                 ('Sheet1', 2, 1): ('f', ('bin', '*', ('name', 'base'),
+                                          ('name', 'rate'))),
+                 ('Sheet1', 2, 2): ('f', ('bin', '+', ('ref', None, 2, 1,
+                                                       False, False),
+                                          ('call', 'SUM', [('name', 'blk')])))}
+        names = {'rate': ('ref', 'Sheet1', 1, 1, True, True),
+                 'base': ('ref', 'Sheet1', 1, 2, True, True),
+                 'blk': ('rng', 'Sheet1', 1, 1, 1, 3, (True,) * 4)}
+        wb = ref.Workbook(cells, names)
+        focus = ['Sheet1!B2'] if trial % 2 == 0 else ['Sheet1!B2', 'rate']
+        try:
+            m0 = build.model_from_xlsx(wb, os.path.join(
+                out, f'chain{ctx.shard}.xlsx'))
+            x1 = ModelCompiler.extract(m0, list(focus))
+            models = {'full': m0, 'extract': x1}
+            evs = {k: Evaluator(v) for k, v in models.items()}
+
+            def assign(target, key, v):
+                for e in evs.values():
+                    e.set_cell_value(target, v)
+                wb.cells[key] = v
+            steps = [('Sheet1!A1', ('Sheet1', 1, 1), rng.choice([0.25, 3])),
+                     ('base', ('Sheet1', 1, 2), rng.choice([1000, 12]))]
+            rng.shuffle(steps)
+            assign(*steps[0])
+            x2 = ModelCompiler.extract(x1, list(focus))
+            models['extract of the extract'] = x2
+            evs['extract of the extract'] = Evaluator(x2)
+            for phase in ('after the first change', 'after the second'):
+                if phase == 'after the second':
+                    assign(*steps[1])
+                want = ('value', ref.to_norm(wb.value(('Sheet1', 2, 2))))
+                for label, e in evs.items():
+                    got = subject.outcome_of(lambda: e.evaluate('Sheet1!B2'))
+                    ctx.event('focus_evaluations')
+                    ctx.event('chained_extraction_evaluations')
+                    ctx.case(('chained', trial, label, phase))
+                    if got != want:
+                        ctx.fail(f'Sheet1!B2 in the {label} ({phase}: '
+                                 f'{steps}) -> {got}, reference {want[1]}',
+                                 {'cells': build.dict_of(ref.Workbook(
+                                     {k: v for k, v in cells.items()})),
+                                  'names': {n: build.name_target(t)
+                                            for n, t in names.items()},
+                                  'focus': focus, 'steps': steps,
+                                  'model': label, 'observed': got,
+                                  'reference': want[1]},
+                                 monitor='same-values',
+                                 group=f'chained:{label}')
+        except Exception as e:  # noqa
+            ctx.fail(f'chained extraction raised {type(e).__name__}: '
+                     f'{str(e)[:200]}', {'focus': focus},
+                     monitor='extract-raises', group='chained-raises')
+
+
 def run(ctx):
     from xlcalculator import Evaluator, ModelCompiler
     rng = ctx.rng
+    if ctx.shard in (1, 5, 9, 13) or ctx.tier == 'thorough':
+        run_chained(ctx)
     if ctx.shard in (0, 4, 8, 12) or ctx.tier == 'thorough':
         run_wide(ctx)
     thorough = ctx.tier == 'thorough'
